@@ -24,6 +24,9 @@ pub fn guarded<T>(f: impl FnOnce() -> T) -> Result<T, String> {
 }
 
 pub fn silence_panics() {
+    if std::env::var("HCV_LOUD").is_ok() {
+        return;
+    }
     std::panic::set_hook(Box::new(|_| {}));
 }
 
